@@ -612,7 +612,13 @@ class Harness:
 
 
 def run_harness(case, workdir):
-    os.makedirs(os.path.join(workdir, ".gwf", "logs"), exist_ok=True)
+    if case.get("logs_not_dir"):
+        # the project's log directory cannot be used at all: `.gwf/logs` is a regular file
+        os.makedirs(os.path.join(workdir, ".gwf"), exist_ok=True)
+        with open(os.path.join(workdir, ".gwf", "logs"), "w") as f:
+            f.write("not a directory\n")
+    else:
+        os.makedirs(os.path.join(workdir, ".gwf", "logs"), exist_ok=True)
     h = Harness(case, workdir)
     h.run()
     return h
